@@ -215,3 +215,66 @@ func ZZ_C04_BIG() {
 		zz.Assert("big-body-intact", bytes.Equal(r.body, body))
 	}
 }
+
+// ZZ_C04_SEQ: two responses in a row on one keep-alive connection (so the second is produced
+// from a recycled context): the first has a sized body of symbolic bytes; the second is any
+// of the bodiless statuses, a HEAD answer, an empty 200, a chunked stream or another sized body.
+// Both are decoded by the strict reader; the second response carries no framing left over from
+// the first: no Content-Length on 1xx/204, and on 304 / HEAD / empty responses the declared
+// length is the length of what the second handler produced.
+func ZZ_C04_SEQ() {
+	b1 := zz.Bytes("body1", zz.Range("len1", 1, 3))
+	b2 := zz.Bytes("body2", 2)
+	second := zz.Choose("second", 6) // 0: 204, 1: 304, 2: HEAD without body, 3: 200 without body, 4: 200 stream of unknown length, 5: 200 sized
+	wire := []byte("GET /one HTTP/1.1\r\nHost: h\r\n\r\n")
+	if second == 2 {
+		wire = append(wire, "HEAD /two HTTP/1.1\r\nHost: h\r\n\r\n"...)
+	} else {
+		wire = append(wire, "GET /two HTTP/1.1\r\nHost: h\r\n\r\n"...)
+	}
+	nc := zz.NewNetConn(wire)
+	k := 0
+	core := zzNewCore(func(c context.Context, ctx *app.RequestContext) {
+		k++
+		if k == 1 {
+			ctx.Response.SetBody(b1)
+			return
+		}
+		switch second {
+		case 0:
+			ctx.SetStatusCode(204)
+		case 1:
+			ctx.SetStatusCode(304)
+		case 4:
+			ctx.Response.SetBodyStream(bytes.NewReader(b2), -1)
+		case 5:
+			ctx.Response.SetBody(b2)
+		}
+	})
+	s := zzNewServer(core)
+	s.IdleTimeout = 1
+	_ = s.Serve(context.Background(), standard.ZZNewConn(nc))
+	out := nc.Out
+	zz.Cover("reached-assert", true)
+	r1, n1, ok1 := zzReadResponse(out, false)
+	zz.Assert("first-response-well-formed", ok1 && r1.status == 200 && bytes.Equal(r1.body, b1))
+	if !ok1 {
+		return
+	}
+	r2, n2, ok2 := zzReadResponse(out[n1:], second == 2)
+	zz.Assert("second-response-well-formed", ok2)
+	if !ok2 {
+		return
+	}
+	zz.Assert("nothing-after-the-second-response", n1+n2 == len(out))
+	switch second {
+	case 0:
+		zz.Assert("no-content-length-on-204", r2.status == 204 && r2.clen < 0 && !r2.chunked)
+	case 1, 2, 3:
+		zz.Assert("declared-length-is-not-left-over-from-the-previous-response", r2.clen <= 0 && !r2.chunked && len(r2.body) == 0)
+	case 4:
+		zz.Assert("stream-body", r2.chunked && bytes.Equal(r2.body, b2))
+	case 5:
+		zz.Assert("sized-body", r2.clen == 2 && bytes.Equal(r2.body, b2))
+	}
+}
